@@ -335,6 +335,19 @@ static Family cache_family(const std::string &tier)
     c.qcache_max_ttl = 3600;
     f.cfgs.push_back(c);
   }
+  {
+    // non-initial start: the base question is already cached (TTL 5 s) when the search begins
+    Cfg c            = cfg("1srv-maxttl3600-from-cached-ttl5", 1, 2, ARES_FLAG_EDNS);
+    c.qcache_max_ttl = 3600;
+    c.preamble       = { { EV_REQ, 0, 0 }, { EV_REPLY, 0, RK_DATA_TTL5 } };
+    f.cfgs.push_back(c);
+    if (tier != "quick") {
+      Cfg d            = cfg("1srv-maxttl5-from-cached-multi", 1, 2, ARES_FLAG_EDNS);
+      d.qcache_max_ttl = 5;
+      d.preamble       = { { EV_REQ, 0, 0 }, { EV_REPLY, 0, RK_DATA_MULTI } };
+      f.cfgs.push_back(d);
+    }
+  }
   // request table: a base question and its near misses
   f.reqs.push_back(rq(2, "www.example.com"));           // 0 base (query_dnsrec A IN rd)
   f.reqs.push_back(rq(2, "WWW.Example.COM"));           // 1 other case
@@ -412,6 +425,21 @@ static Family failover_family(const std::string &tier)
     Cfg d          = cfg("srv2-udp-stayopen-norotate-chance0", 2, 2, ARES_FLAG_STAYOPEN);
     d.retry_chance = 0;
     d.auto_io      = true;
+    f.cfgs.push_back(d);
+  }
+  {
+    // non-initial start: the first server has already failed once (request a timed out there and moved on), so the
+    // search spends its depth on what happens to a demoted server (probes, restoration, further failures)
+    Cfg c          = cfg("srv2-norotate-chance1-delay0-tries2-from-failed0", 2, 2, 0);
+    c.retry_chance = 1;
+    c.retry_delay  = 0;
+    c.auto_io      = true;
+    c.preamble     = { { EV_REQ, 0, 0 }, { EV_TIMER, 0, 0 } };
+    f.cfgs.push_back(c);
+    Cfg d          = cfg("srv3-norotate-chance0-tries2-from-failed0", 3, 2, 0);
+    d.retry_chance = 0;
+    d.auto_io      = true;
+    d.preamble     = { { EV_REQ, 0, 0 }, { EV_TIMER, 0, 0 } };
     f.cfgs.push_back(d);
   }
   // selection policy is the subject here, not I/O timing: descriptors are serviced after every event so that a frame
@@ -573,6 +601,21 @@ static Family cookie_family(const std::string &tier)
     Cfg c                = cfg("1srv-edns-wholesecond", 1, 3, ARES_FLAG_EDNS);
     c.auto_io            = true;
     c.whole_second_clock = true;
+    f.cfgs.push_back(c);
+  }
+  {
+    // non-initial start: the server has already proven cookie support (request a answered with a valid cookie)
+    Cfg c      = cfg("1srv-edns-from-proven", 1, 3, ARES_FLAG_EDNS);
+    c.auto_io  = true;
+    c.preamble = { { EV_REQ, 0, 0 }, { EV_REPLY, 0, RK_CK_VALID } };
+    f.cfgs.push_back(c);
+  }
+  {
+    // non-initial start: support proven, then a cookie-less reply to the next request was dropped (regression timer
+    // armed, request b still outstanding)
+    Cfg c      = cfg("1srv-edns-from-regressing", 1, 3, ARES_FLAG_EDNS);
+    c.auto_io  = true;
+    c.preamble = { { EV_REQ, 0, 0 }, { EV_REPLY, 0, RK_CK_VALID }, { EV_REQ, 1, 0 }, { EV_REPLY, 1, RK_CK_NONE } };
     f.cfgs.push_back(c);
   }
   f.reqs.push_back(rq(2, "a.example.com"));
